@@ -34,7 +34,10 @@ SPEC = {
              "strings / nothing, with and without return annotation; 4 signatures in the F45 region; 3 un-renderable "
              "annotations; 13 orders of virtual / persistent / method entries; 11 target x class-name combinations on two "
              "schemas) plus seeded random schemas (0-8 fields, 0-3 methods with generated signatures, nesting depth <= 2, "
-             "targets schema / configuration / config type); every case generates the stub up to 8 times in one process "
+             "targets schema / configuration / config type); dynamic root and nested schemas whose configurations got extra fields at run time by assignment and "
+             "load_tree (17 matrix cases, ~25% of the random cases): field tables (names and identities) of the root and "
+             "every nested schema, the run-time field tables and trees of the dynamic configuration, and a second "
+             "configuration built afterwards are compared before/after; every case generates the stub up to 9 times in one process "
              "(same target again, the schema, a configuration built from it, a sibling schema and a config type that share "
              "the method function objects, then the schema and the target again): every generation must satisfy the whole "
              "oracle and equal the first one character for character, and signature / __annotations__ / defaults of the "
@@ -44,7 +47,9 @@ SPEC = {
                      "modelled, not verified: str() of typing constructs and class __module__/__name__ (read off the real "
                      "field / annotation objects per case), inspect.getfullargspec (per case), Python's grammar (replaced by "
                      "the stub fragment grammar of Stubs.parse_stub and compared with ast.parse on every case)"],
-    "assumptions": ["field keys are non-keyword identifiers other than 'self' (a key that is a Python keyword, legal through "
+    "assumptions": ["a stub describes the SCHEMA: fields added at run time to a configuration of a dynamic schema live in "
+                    "config._fields and are not declared by generate_stub(config) (unchanged code; modelled as such)",
+                    "field keys are non-keyword identifiers other than 'self' (a key that is a Python keyword, legal through "
                     "schema[\"from\"] = ..., yields `from: str`, which is not valid Python; a field named self yields a "
                     "duplicate __init__ parameter): documented domain restriction, such keys are not generated",
                     "class name, field keys and parameter names are ASCII identifiers; "
